@@ -99,27 +99,39 @@ structure World where
 def World.upd (w : World) (s : Nat) (f : SolverSt → SolverSt) : World :=
   { w with solvers := w.solvers.set s (f (w.solvers.getD s {})) }
 
+def World.onNew (w : World) : World :=
+  { w with solvers := w.solvers ++ [{}], trace := .new w.solvers.length :: w.trace }
+def World.onReserve (w : World) (s n : Nat) : World :=
+  { (w.upd s (fun st => { st with reserved := max st.reserved n })) with trace := .reserve s n :: w.trace }
+def World.onClause (w : World) (s : Nat) (c : Clause) : World :=
+  { (w.upd s (fun st => { st with maxVar := max st.maxVar (litsMax c) })) with trace := .clause s c :: w.trace }
+def World.nVarsOf (w : World) (s : Nat) : Nat := (w.solvers.getD s {}).nVars
+def World.onNVars (w : World) (s : Nat) : World :=
+  { w with trace := .nvars s (w.nVarsOf s) :: w.trace }
+def World.onSolve (w : World) (s : Nat) (a : List Lit) : World :=
+  { (w.upd s (fun st => { st with maxVar := max st.maxVar (litsMax a) })) with
+    trace := .solve s a :: w.trace, calls := w.calls + 1 }
+def World.onReply (w : World) (s : Nat) (r : Reply) : World :=
+  { w with trace := .reply s r :: w.trace }
+
 def interp {α : Type} : Prog α → List Reply → World → Outcome α × World
   | .pure a, _, w => (.done a, w)
   | .crash m, _, w => (.crashed m, w)
-  | .newSolver k, rs, w =>
-    let s := w.solvers.length
-    interp (k s) rs { w with solvers := w.solvers ++ [{}], trace := .new s :: w.trace }
-  | .reserve s n k, rs, w =>
-    interp k rs { (w.upd s (fun st => { st with reserved := max st.reserved n })) with trace := .reserve s n :: w.trace }
-  | .clause s c k, rs, w =>
-    interp k rs { (w.upd s (fun st => { st with maxVar := max st.maxVar (litsMax c) })) with trace := .clause s c :: w.trace }
-  | .nVars s k, rs, w =>
-    let v := (w.solvers.getD s {}).nVars
-    interp (k v) rs { w with trace := .nvars s v :: w.trace }
-  | .solve s a k, rs, w =>
-    let w1 := { (w.upd s (fun st => { st with maxVar := max st.maxVar (litsMax a) })) with
-                trace := .solve s a :: w.trace, calls := w.calls + 1 }
-    match rs with
-    | [] => (.starved, w1)
-    | .unknown :: _ => (.abort, { w1 with trace := .reply s .unknown :: w1.trace })
-    | .unsat :: rs' => interp (k none) rs' { w1 with trace := .reply s .unsat :: w1.trace }
-    | .sat m :: rs' => interp (k (some m)) rs' { w1 with trace := .reply s (.sat m) :: w1.trace }
+  | .newSolver k, rs, w => interp (k w.solvers.length) rs w.onNew
+  | .reserve s n k, rs, w => interp k rs (w.onReserve s n)
+  | .clause s c k, rs, w => interp k rs (w.onClause s c)
+  | .nVars s k, rs, w => interp (k (w.nVarsOf s)) rs (w.onNVars s)
+  | .solve s a k, [], w => (.starved, w.onSolve s a)
+  | .solve s a _, .unknown :: _, w => (.abort, (w.onSolve s a).onReply s .unknown)
+  | .solve s a k, .unsat :: rs', w => interp (k none) rs' ((w.onSolve s a).onReply s .unsat)
+  | .solve s a k, .sat m :: rs', w => interp (k (some m)) rs' ((w.onSolve s a).onReply s (.sat m))
+
+@[simp] theorem World.onNew_calls (w : World) : w.onNew.calls = w.calls := rfl
+@[simp] theorem World.onReserve_calls (w : World) (s n : Nat) : (w.onReserve s n).calls = w.calls := rfl
+@[simp] theorem World.onClause_calls (w : World) (s : Nat) (c : Clause) : (w.onClause s c).calls = w.calls := rfl
+@[simp] theorem World.onNVars_calls (w : World) (s : Nat) : (w.onNVars s).calls = w.calls := rfl
+@[simp] theorem World.onSolve_calls (w : World) (s : Nat) (a : List Lit) : (w.onSolve s a).calls = w.calls + 1 := rfl
+@[simp] theorem World.onReply_calls (w : World) (s : Nat) (r : Reply) : (w.onReply s r).calls = w.calls := rfl
 
 def runProg {α : Type} (p : Prog α) (rs : List Reply) : Outcome α × World := interp p rs {}
 
